@@ -379,6 +379,15 @@ pub(crate) fn ec_pairing(
             // Each element consists of an uncompressed G1 point (64 bytes) and an
             // uncompressed G2 point (128 bytes).
             let element_size = 128 + 64;
+            // All elements must lie in accessible memory. Check it before allocating,
+            // so that the allocation is bounded by the VM memory size and not only by
+            // the gas price of an element.
+            let elements_len = number_elements
+                .checked_mul(element_size)
+                .ok_or(fuel_tx::PanicReason::MemoryOverflow)?;
+            if elements_len > 0 {
+                memory.verify(elements_ptr, elements_len)?;
+            }
             let mut elements = Vec::with_capacity(
                 usize::try_from(number_elements)
                     .map_err(|_| fuel_tx::PanicReason::MemoryOverflow)?,
